@@ -274,7 +274,7 @@ structure Info where
   country : Option String
   pattern : Option String
   category : Option String
-  deriving Repr
+  deriving Repr, DecidableEq
 
 def infoOf (reg : Option (List Char)) (blk : Option Block) : Info :=
   match blk with
@@ -286,6 +286,96 @@ def infoOf (reg : Option (List Char)) (blk : Option Block) : Info :=
 
 def info (h : Nat) : Outcome Info :=
   (tailStr h).bind fun reg => .ok (infoOf reg (blockOf h))
+
+/-! ### `aircraft_information` with its panic sites (audit-c M5)
+
+`info` above is the lookup on already-parsed data.  The Rust function does more at every call, and
+four of those steps can panic (`patterns.rs`):
+
+1. `PATTERNS` is a `Lazy`: its first use runs `serde_json::from_str(PATTERNS_JSON).unwrap()`;
+2. the `find` closure computes `u32::from_str_radix(&start[2..], 16).unwrap()` and the same for
+   `end` for every `registers` entry it visits — a slice (`&start[2..]`: byte index 2 must be inside
+   the string and on a character boundary) and an `unwrap`;
+3. (the same for `end`);
+4. the `categories` closure computes `Regex::new(&elt.pattern).unwrap()` for every category it
+   visits.
+
+`infoChecked` performs them as checked operations on the GENERATED texts (`Gen.Tail.blockBounds`,
+`Category.compiled`, `Gen.Tail.patternsJsonLoads`); `infoStr` adds the first statement of the
+function, `u32::from_str_radix(icao24, 16)?`, the only `Err` path. -/
+
+/-- `&s[n..]` on the characters of `s`: drop `n` BYTES; panics (`str` slice) when `n` is past the end
+    or inside a multi-byte character -/
+def dropBytes : List Char → Nat → Outcome (List Char)
+  | cs, 0 => .ok cs
+  | [], _ + 1 => .panic .slice
+  | c :: cs, n + 1 => if c.utf8Size ≤ n + 1 then dropBytes cs (n + 1 - c.utf8Size) else .panic .slice
+
+def hexDigits : List Char → Nat → Option Nat
+  | [], acc => some acc
+  | c :: cs, acc =>
+    match hexVal c with
+    | some d => if acc * 16 + d < 2 ^ 32 then hexDigits cs (acc * 16 + d) else none
+    | none => none
+
+/-- `u32::from_str_radix(s, 16)`: an optional `+`, then at least one hexadecimal digit, value below
+    2^32 (`none` = `Err(ParseIntError)`) -/
+def stripPlus : List Char → List Char
+  | '+' :: r => r
+  | r => r
+
+def parseHexU32 (s : List Char) : Option Nat :=
+  if (stripPlus s).isEmpty then none else hexDigits (stripPlus s) 0
+
+/-- `u32::from_str_radix(&s[2..], 16).unwrap()` -/
+def parseBound (s : String) : Outcome Nat :=
+  (dropBytes s.toList 2).bind fun t =>
+    match parseHexU32 t with
+    | some v => .ok v
+    | none => .panic .unwrapErr
+
+/-- first use of `PATTERNS`: `serde_json::from_str(PATTERNS_JSON).unwrap()` -/
+def loadPatterns : Outcome Unit :=
+  if patternsJsonLoads then .ok () else .panic .unwrapErr
+
+/-- the `find` over `PATTERNS.registers` with the two parses of every visited entry; `bounds` are the
+    `start`/`end` texts of the entries `bs` (entries lacking one of them make the closure return
+    `false` without parsing anything, and are not listed) -/
+def blockFindChecked (h : Nat) : List (String × String) → List Block → Outcome (Option Block)
+  | (s, e) :: rs, b :: bs =>
+    (parseBound s).bind fun st => (parseBound e).bind fun en =>
+      if st ≤ h ∧ h ≤ en then .ok (some b) else blockFindChecked h rs bs
+  | _, _ => .ok none
+
+/-- the `find` over `categories` with `Regex::new(&elt.pattern).unwrap()` for every visited entry -/
+def catFindChecked (t : List Char) : List Category → Outcome (Option Category)
+  | [] => .ok none
+  | c :: cs =>
+    match c.compiled with
+    | none => .panic .unwrapErr
+    | some r => if r.pm t then .ok (some c) else catFindChecked t cs
+
+/-- `aircraft_information(icao24, None)` after `hexid` has been parsed, with its panic sites -/
+def infoChecked (h : Nat) : Outcome Info :=
+  (tailStr h).bind fun reg =>
+  loadPatterns.bind fun _ =>
+  (blockFindChecked h blockBounds blocks).bind fun blk =>
+    match blk with
+    | none => .ok ⟨reg, none, none, none⟩
+    | some b =>
+      match reg with
+      | none => .ok ⟨reg, some b.country, b.pattern, none⟩
+      | some t =>
+        (catFindChecked t b.cats).bind fun cat =>
+          match cat with
+          | none => .ok ⟨reg, some b.country, b.pattern, none⟩
+          | some c => .ok ⟨reg, some (c.country.getD b.country), some c.pattern, c.category⟩
+
+/-- `aircraft_information(icao24, None)` on the text of the address -/
+def infoStr (icao24 : List Char) : Outcome Info :=
+  match parseHexU32 icao24 with
+  | none => .err .parse
+  | some h => infoChecked h
 
 /-- The registration matches the national pattern of the block: the block has a `pattern`, and
     `Regex::new(pattern).is_match(reg)`. -/
